@@ -126,6 +126,7 @@ def run(ctx, chk):
     C02.r1_pipeline(ctx, chk, "C05.pre:C02.1")
     C02.r4_restriction_argument(ctx, chk, "C05.pre:C02.4")
     C03.r1(ctx, chk, "C05.pre:C03.1")      # the restriction must not skip elements of the list it rewrites
+    C03.r23(ctx, chk, "C05.pre:C03.2", "C05.pre:C03.3")     # "permitted actions" are those of the conditioned game: exactly the dead branches are cut
     C02.r3_sweep(ctx, chk, "C05.pre:C02.3")    # the strategies are read off the rewards the sweep left behind: it must run to the threshold over every state
     r1_inclusion(ctx, chk)
     # (c) nothing adds to next_states afterwards
